@@ -183,8 +183,8 @@ def rule_B2(ctx):
             return dirty, False
 
         block(G.body_wo_doc(f), False, False)
-        if problems and ctx.rk(f.key) in B2_EXEMPT:
-            r.ok(f'{f.key}[{node[1]}]', reason=True, sample={'instance': f.key, 'reason': B2_EXEMPT[ctx.rk(f.key)]})
+        if problems and ctx.reason_key(B2_EXEMPT, f.key) is not None:
+            r.ok(f'{f.key}[{node[1]}]', reason=True, sample={'instance': f.key, 'reason': B2_EXEMPT[ctx.reason_key(B2_EXEMPT, f.key)]})
         elif problems:
             for (nd, why) in problems[:2]:
                 r.fail(f.key, nd, f"{why}: an invalid argument must raise and leave the content as it was", loc=f.loc(nd),
@@ -809,6 +809,11 @@ def rule_N2(ctx):
             if rk is not None:
                 r.ok(f'{f.key}:{norm(node)}', reason=True, sample={'instance': f.key, 'divisor': dt, 'reason': N2_REASONS[rk]})
                 continue
+            # a division whose ZeroDivisionError is caught where it happens
+            if any(isinstance(t_, ast.Try) and any(node is y for b in t_.body for y in ast.walk(b)) and any(
+                    G.handler_names(h) & {'ZeroDivisionError', 'ArithmeticError', 'Exception', '*'} for h in t_.handlers) for t_ in own_walk(f.node)):
+                r.ok(f'{f.key}:{norm(node)}', {'instance': f.key, 'divisor': dt, 'verdict': 'under a ZeroDivisionError handler'})
+                continue
             r.fail(f.key, f'{norm(node)}', f"the divisor '{dt}' can be zero on some path (no dominating guard, not a non-zero constant, no reviewed reason): "
                    'ZeroDivisionError reaches the caller', loc=f.loc(node))
     if n < 20:
@@ -1169,8 +1174,13 @@ def _rmatch(ctx, table, fk, txt, f=None):
             keep |= set(g)
         keep |= {'dtype_register', 'math', 'struct', 're', 'sys', 'os', 'functools'}      # (module names are also ordinary words: bits, utils)
         ctx._global_names = keep
-    return match(table, fk, txt, keep | set(f.params()) if f is not None else keep, src=ast.unparse(f.node) if f is not None else None,
-                 params=set(f.params()) - {'self', 'cls'} if f is not None else ())
+    fks = [fk] + ([k for k in ctx.rks(f.key) if k != fk] if f is not None else [])
+    for one in fks:
+        k = match(table, one, txt, keep | set(f.params()) if f is not None else keep, src=ast.unparse(f.node) if (f is not None and one == fk) else None,
+                  params=set(f.params()) - {'self', 'cls'} if f is not None else ())
+        if k is not None:
+            return k
+    return None
 
 
 def rule_RNG(ctx):
